@@ -7,7 +7,7 @@ use std::collections::BTreeSet;
 
 use shred::{ResourceId, World};
 
-pub const NWT: usize = 6;
+pub const NWT: usize = 8;
 pub const NWD: usize = 3;
 
 #[derive(Default)]
@@ -289,6 +289,72 @@ impl Tracked for Plain {
     }
 }
 
+/// larger than a page: exercises every size-dependent path a container may have
+pub struct Huge {
+    pub id: u64,
+    pub pad: [u8; 5000],
+}
+impl Tracked for Huge {
+    const TY: u8 = 6;
+    fn make(id: u64) -> Self {
+        born(6, id);
+        let mut pad = [0u8; 5000];
+        for (i, p) in pad.iter_mut().enumerate() {
+            *p = (id as usize).wrapping_mul(17).wrapping_add(i) as u8;
+        }
+        Huge { id, pad }
+    }
+    fn id(&self) -> u64 {
+        self.id
+    }
+    fn pattern_ok(&self) -> bool {
+        self.pad
+            .iter()
+            .enumerate()
+            .all(|(i, p)| *p == (self.id as usize).wrapping_mul(17).wrapping_add(i) as u8)
+    }
+}
+impl Drop for Huge {
+    fn drop(&mut self) {
+        died(6, self.id, self.pattern_ok());
+    }
+}
+impl Default for Huge {
+    fn default() -> Self {
+        Huge::make(default_id())
+    }
+}
+
+/// over-aligned
+#[repr(align(256))]
+pub struct Aligned {
+    pub id: u64,
+    pub tag: u32,
+}
+impl Tracked for Aligned {
+    const TY: u8 = 7;
+    fn make(id: u64) -> Self {
+        born(7, id);
+        Aligned { id, tag: id as u32 ^ 0x5a5a_5a5a }
+    }
+    fn id(&self) -> u64 {
+        self.id
+    }
+    fn pattern_ok(&self) -> bool {
+        self.tag == self.id as u32 ^ 0x5a5a_5a5a && (self as *const Self as usize) % 256 == 0
+    }
+}
+impl Drop for Aligned {
+    fn drop(&mut self) {
+        died(7, self.id, self.pattern_ok());
+    }
+}
+impl Default for Aligned {
+    fn default() -> Self {
+        Aligned::make(default_id())
+    }
+}
+
 #[macro_export]
 macro_rules! with_wt {
     ($t:expr, $T:ident, $body:expr) => {
@@ -315,6 +381,14 @@ macro_rules! with_wt {
             }
             5 => {
                 type $T = $crate::wtypes::Plain;
+                $body
+            }
+            6 => {
+                type $T = $crate::wtypes::Huge;
+                $body
+            }
+            7 => {
+                type $T = $crate::wtypes::Aligned;
                 $body
             }
             _ => panic!("harness: world type index out of range"),
